@@ -70,13 +70,17 @@ func (app *AppData) Pack(buffer []byte) {
 
 	buffer[0] = byte(dataLength)
 
+	// The buffer may hold stale bytes; start from zero before OR-ing the fields in.
+	buffer[1] = 0
+	buffer[2] = 0
+
 	if app.Numbered {
 		buffer[1] |= 1<<6 | (app.SeqNumber&15)<<2
 	}
 
 	buffer[1] |= byte(app.Command>>2) & 3
 
-	copy(buffer[2:], app.Data)
+	copy(buffer[2:2+dataLength], app.Data)
 
 	buffer[2] &= 63
 	buffer[2] |= byte(app.Command&3) << 6
